@@ -74,6 +74,10 @@ def g_closed(s, P):
             kw['pcont'] = s.choice(['array', 'tuple', 'intlist'] if all(float(v).is_integer() for v in p0) else ['array', 'tuple'])
         if s.chance(0.25):
             kw['dmask'] = s.choice([1, 2])
+        if fn != 'FIM' and s.chance(0.3):
+            kw['bcont'] = s.choice(['array', 'tuple'])
+        if kw.get('adjusts') and s.chance(0.4):
+            kw['acont'] = 'tuple'
         P.add('C19.closed_form', fn, k, seed, ns, p0, multinom, eps, s.randint(0, 3), nboot, **kw)
     return P
 
